@@ -4,6 +4,7 @@ package peer
 
 import (
 	"math/rand/v2"
+	"sync"
 	"time"
 
 	"verifsim/simnet"
@@ -55,6 +56,7 @@ type CLI struct {
 	rng       *rand.Rand
 	line      []byte
 	EchoDelay time.Duration
+	mu        sync.Mutex
 }
 
 // NewCLI returns a device in mode start.
@@ -85,6 +87,8 @@ func (d *CLI) Start() []simnet.Seg {
 
 // Input implements simnet.Peer.
 func (d *CLI) Input(b []byte, now time.Duration) []simnet.Seg {
+	d.mu.Lock()
+	defer d.mu.Unlock()
 	var segs []simnet.Seg
 	d.Raw = append(d.Raw, b...)
 	for i, c := range b {
@@ -156,4 +160,17 @@ func (d *CLI) Lines() []string {
 }
 
 // LineClean reports whether the device's input line buffer is empty (no partial command).
-func (d *CLI) LineClean() bool { return len(d.line) == 0 }
+func (d *CLI) LineClean() bool {
+	d.mu.Lock()
+	defer d.mu.Unlock()
+
+	return len(d.line) == 0
+}
+
+// State returns the current mode and the number of lines received so far.
+func (d *CLI) State() (string, int) {
+	d.mu.Lock()
+	defer d.mu.Unlock()
+
+	return d.Cur, len(d.Log)
+}
